@@ -116,7 +116,8 @@ def random_curves(n, rnd, count=80):
     tries = 0
     while len(out) < count and tries < 20 * count:
         tries += 1
-        ys = [rnd.randint(0, 6) for _ in range(n)]
+        hi = 6 if rnd.random() < 0.5 else 40
+        ys = [rnd.randint(0, hi) for _ in range(n)]
         if len(set(ys)) < 2 and n > 2:
             continue
         if rnd.random() < 0.7:
